@@ -331,12 +331,160 @@ def r116(ctx, fx):
             ctx.finding(rid, k + "|order", "listing files are written in the iteration order of a HashMap", "%s:%s" % (bc.file, loop.get("ln")))
 
 
+def _anc_walk(n, anc=()):
+    """(node, ancestors) for every dict node, pre-order; ancestors are (parent node, key under which the child hangs) pairs"""
+    if isinstance(n, dict):
+        yield n, anc
+        for k, v in n.items():
+            if isinstance(v, (dict, list)):
+                yield from _anc_walk(v, anc + ((n, k),)) if isinstance(v, dict) else _anc_list(v, anc + ((n, k),))
+
+
+def _anc_list(v, anc):
+    for x in v:
+        if isinstance(x, dict):
+            yield from _anc_walk(x, anc)
+        elif isinstance(x, list):
+            yield from _anc_list(x, anc)
+
+
+_ADAPTERS = ("iter", "into_iter", "iter_mut", "enumerate", "rev", "cloned", "copied", "by_ref")
+
+
+def _base_local(e):
+    """the local a `for` iterates in full: looks through adapters that keep every element; None for anything else (filter, skip, take, ranges …)"""
+    e = lib.strip(e)
+    while isinstance(e, dict):
+        if e.get("k") == "mcall" and e.get("name") in _ADAPTERS:
+            e = lib.strip(e["recv"])
+        elif e.get("k") == "unary" and e.get("op") == "Deref":
+            e = lib.strip(e["a"])
+        else:
+            break
+    if isinstance(e, dict) and e.get("k") == "path" and (e.get("res") or {}).get("dk") == "Local":
+        return e["res"].get("name")
+    return None
+
+
+def _for_loops(root):
+    """(desugared for node, iterated expression, body of the loop) for every `for` below root"""
+    for n in lib.hwalk(root):
+        if n.get("k") == "match" and n.get("src") == "ForLoopDesugar" and lib.strip(n["scrut"]).get("k") == "call" and \
+                str(lib.hcallee(lib.strip(n["scrut"]))).endswith("into_iter"):
+            inner = [m for m in lib.hwalk(n["arms"]) if m.get("k") == "match" and m.get("src") == "ForLoopDesugar" and m is not n and
+                     str(lib.hcallee(lib.strip(m["scrut"]))).endswith("::next")]
+            if not inner:
+                continue
+            some = [a for a in inner[0]["arms"] if "Some" in str(lib.pat_key(a["pat"]))]
+            if some:
+                yield n, lib.strip(n["scrut"])["args"][0], some[0]["body"]
+
+
+def r117(ctx, fx):
+    rid = ctx.rule("R11.7", "every source line gets a row: in the loop of to_listing over the lines of a file, the decision to print the row without bytes and the loop "
+                   "that prints the rows with bytes are taken on the same collection — `X.is_empty()` selects the empty row, and the rows are printed per element "
+                   "of X or of a collection that has an element whenever X has one (filled by a loop over X whose body appends on every path). Testing an "
+                   "earlier collection (the source-map entries of the line) from which the bytes are only *conditionally* derived leaves a line whose entries "
+                   "yield no bytes without any row")
+    tl = fx.fn("mos_core::io::listing::to_listing")
+    if tl is None or not tl.d.get("hir"):
+        ctx.fail_closed(rid, "io::listing::to_listing not found")
+        return
+    line_loops = [(n, it, body) for n, it, body in _for_loops(tl.hir["body"]) if any(True for _ in lib.hir_calls(it, "File::num_lines"))]
+    if len(line_loops) != 1:
+        ctx.fail_closed(rid, "the loop over 0..file.num_lines() was not found in to_listing (%d candidates)" % len(line_loops))
+        return
+    _, _, body = line_loops[0]
+    inside = {q["name"] for n in lib.hwalk(body) if n.get("k") == "let" for q in lib.hwalk(n["pat"]) if q.get("k") == "bind"}
+    key = "to_listing|row-per-line"
+
+    def is_row_push(x):
+        if not (x.get("k") == "mcall" and x.get("name") == "push" and str(x.get("path", "")).startswith("alloc::vec::Vec")):
+            return False
+        r = lib.strip(x["recv"])
+        return r.get("k") == "path" and (r.get("res") or {}).get("dk") == "Local" and r["res"].get("name") not in inside and "String" in str(r.get("ty"))
+    fors = {id(n): (n, it, b) for n, it, b in _for_loops(body)}
+    direct, looped = [], []
+    for x, anc in _anc_walk(body):
+        if not is_row_push(x):
+            continue
+        enclosing = [fors[id(p)] for p, _ in anc if id(p) in fors]
+        tests = []
+        for p, k in anc:
+            if p.get("k") == "if" and k in ("then", "else"):
+                c = lib.strip(p["cond"])
+                neg = k == "else"
+                while c.get("k") == "unary" and c.get("op") == "Not":
+                    c, neg = lib.strip(c["a"]), not neg
+                if c.get("k") == "mcall" and c.get("name") == "is_empty" and not neg:
+                    tests.append(_base_local(c["recv"]))
+                elif c.get("k") == "binary" and c.get("op") in ("Eq", "Ne") and (c["op"] == "Ne") == neg and lib.hlit(c["r"]) == 0 and \
+                        lib.strip(c["l"]).get("k") == "mcall" and lib.strip(c["l"]).get("name") == "len":
+                    tests.append(_base_local(lib.strip(c["l"])["recv"]))
+        (looped if enclosing else direct).append((x, enclosing, tests))
+    sample = {"rows_without_bytes": len(direct), "rows_with_bytes": len(looped)}
+    if not looped or not direct:
+        # some other way of writing it: decided on the flow graph alone, or not at all
+        ctx.inst(rid, key, sample=dict(sample, shape="not the is_empty / per-element form"))
+        ctx.not_decided("R11.7: to_listing does not print its rows in the `is_empty` / per-element form; that every line gets a row is not decided")
+        return
+    tested = {t for _, _, tests in direct for t in tests if t}
+    if not tested:
+        ctx.inst(rid, key, sample=dict(sample, shape="the row without bytes is not selected by an emptiness test"))
+        ctx.not_decided("R11.7: the row without bytes of to_listing is not selected by `is_empty()` / `len() == 0`; that every line gets a row is not decided")
+        return
+
+    def appends_always(loop_body, target):
+        """every path through the loop body appends to `target`: a push that hangs under no condition other than a match on target.last()/last_mut() one
+        arm of which pushes (the other arms extend the last element, which exists)"""
+        for x, anc in _anc_walk(loop_body):
+            if not (x.get("k") == "mcall" and x.get("name") == "push" and _base_local(x["recv"]) == target):
+                continue
+            ok = True
+            for p, k in anc:
+                pk = p.get("k")
+                if pk == "if" and k in ("then", "else"):
+                    ok = False
+                elif pk == "loop" and p.get("src") != "ForLoop":
+                    ok = False
+                elif pk == "match" and k == "arms" and p.get("src") not in ("ForLoopDesugar",):
+                    s = lib.strip(p["scrut"])
+                    if not (s.get("k") == "mcall" and s.get("name") in ("last", "last_mut") and _base_local(s["recv"]) == target):
+                        ok = False
+            if ok and not any(id(p) in {id(n) for n, _, _ in _for_loops(loop_body)} for p, _ in anc):
+                return True
+        return False
+    # collections known to be non-empty when a tested one is: closure of `tested` under "filled by a for over a member, appending on every path"
+    nonempty = set(tested)
+    all_fors = list(_for_loops(body))
+    changed = True
+    while changed:
+        changed = False
+        for n, it, b in all_fors:
+            src = _base_local(it)
+            if src in nonempty:
+                for x in lib.hwalk(b):
+                    if x.get("k") == "mcall" and x.get("name") == "push":
+                        tgt = _base_local(x["recv"])
+                        if tgt and tgt not in nonempty and tgt in inside and appends_always(b, tgt):
+                            nonempty.add(tgt)
+                            changed = True
+    rows_over = sorted({str(_base_local(enc[0][1])) for _, enc, _ in looped})
+    ctx.inst(rid, key, sample=dict(sample, empty_row_selected_by=sorted(tested), rows_printed_per_element_of=rows_over, has_an_element_whenever_tested_has=sorted(nonempty)))
+    for c in rows_over:
+        if c not in nonempty:
+            ctx.finding(rid, key, "the row without bytes is printed when `%s` is empty, the rows with bytes per element of `%s` — which can be empty when `%s` is "
+                        "not (it is filled conditionally): a source line whose source-map entries yield no bytes (a zero-length entry, an entry of a segment that "
+                        "no longer holds it) disappears from the listing" % ("`/`".join(sorted(tested)) or "?", c, "`/`".join(sorted(tested)) or "?"), tl.where)
+
+
 def run(ctx):
     fx = ctx.facts
     cg = lib.CallGraph(fx)
     r111(ctx, fx, cg)
     r115(ctx, fx, cg)
     r116(ctx, fx)
+    r117(ctx, fx)
     r112(ctx, fx)
     r113(ctx, fx, cg)
     r114(ctx, fx)
